@@ -318,7 +318,11 @@ func (in *Interp) unop(x *ssa.UnOp, v Value) Value {
 		_, hi, _ := in.intRange(x.Type())
 		return f.Sub(f.BigInt(hi), t)
 	case token.ARROW:
-		in.fail("unsupported", "channel receive")
+		rv, ok := in.chanRecv(v)
+		if x.CommaOk {
+			return TupleVal{rv, f.Bool(ok)}
+		}
+		return rv
 	}
 	in.fail("unsupported", "unop "+x.Op.String())
 	return nil
@@ -900,6 +904,7 @@ func (in *Interp) builtin(b *ssa.Builtin, args []Value, cc *ssa.CallCommon) Valu
 		}
 		return acc
 	case "close":
+		in.chanClose(args[0])
 		return nil
 	case "ssa:wrapnilchk":
 		if isNilPtr(args[0]) {
